@@ -299,6 +299,9 @@ func rulesC18(e *Engine, r *Report) {
 		})
 		r.Min("R18.4", "acknowledgements in the writer goroutine", n, 1)
 	}
+	// ---------------------------------------------------------------- R18.7
+	r.Rule("R18.7", "the receive record describes the file that was delivered: finalize() writes the record of the very version whose bytes it moves (the cache's current record for the path), never the record of an older version that was parked before - shared with R05.12")
+	e.checkCurrentVersionFinalized(r, "R18.7")
 }
 
 // checkDayLoop: the day-file iterator behind Parse / WasReceived / WasSent
